@@ -53,7 +53,7 @@ import (
 // against Cq = 4. The name-decoding blow-up this check exists for is 34 000·n at
 // 1 kB and 2.2·10^6·n at 8 kB; the verdicts do not depend on the exact values.
 const (
-	Ks    = 1024     // deepSize     <= Ks*n + C
+	Ks    = 512      // deepSize     <= Ks*n + C
 	Kd    = 1024     // allocDec     <= Kd*n + CqDec*depth*n + C
 	Ka    = 1024     // allocDecEnc  <= Ka*n + Cq*depth*n + C
 	CqDec = 1        // the statement: one copy of the input per level of nesting
